@@ -74,6 +74,9 @@ func startNode(fs *crashfs.FS, bcfg map[string]string) (n *node, err error) {
 		kgo.Dialer(vn.DialContext),
 		kgo.MetadataMinAge(30*time.Minute), kgo.MetadataMaxAge(time.Hour),
 		kgo.DisableClientMetrics(), // no KIP-714 telemetry push (gzip) on every client Close
+		// the read deadline of a request is this overhead (default 10 s): on a machine
+		// with a load of 100+ a broker goroutine can be off the CPU for longer
+		kgo.RequestTimeoutOverhead(3*time.Minute),
 	)
 	if cerr != nil {
 		c.Close()
@@ -88,7 +91,7 @@ func (n *node) stop() {
 }
 
 func (n *node) req(r kmsg.Request) (kmsg.Response, error) {
-	ctx, cancel := context.WithTimeout(context.Background(), 60*time.Second)
+	ctx, cancel := context.WithTimeout(context.Background(), 4*time.Minute)
 	defer cancel()
 	resp, err := n.br.Request(ctx, r)
 	if err != nil {
